@@ -282,6 +282,14 @@ func (bc *BlockChain) SetHead(head uint64) error {
 
 	// Rewind the header chain, deleting all block bodies until then
 	delFn := func(hash common.Hash, num uint64) {
+		// Drop the lookup entries that point into the body being removed
+		if body := GetBodyNoVersion(bc.db, hash, num); body != nil {
+			for _, tx := range body.Transactions {
+				if h, _, _ := GetTxLookupEntry(bc.db, tx.Hash()); h == hash {
+					DeleteTxLookupEntry(bc.db, tx.Hash())
+				}
+			}
+		}
 		DeleteBody(bc.db, hash, num)
 	}
 	bc.hc.SetHead(head, delFn)
